@@ -130,6 +130,9 @@ pub struct Node<'a> {
     pub tag: &'static str,
     /// true when `b` was produced incrementally (make_move / null_move), false when parsed
     pub incremental: bool,
+    /// the library's successor no longer agrees with the model's (placement / side / rights): the node is
+    /// still shown once to monitors that judge the library's own view of the board; the walk stops here
+    pub diverged: bool,
 }
 
 pub trait NodeMon {
@@ -265,6 +268,7 @@ pub fn playout(start: &Start, cfg: &WalkCfg, rng: &mut Rng, mon: &mut dyn NodeMo
                 after_null,
                 tag: start.tag,
                 incremental,
+                diverged: false,
             };
             mon.node(&n, rep, rng);
         }
@@ -317,6 +321,8 @@ pub fn playout(start: &Start, cfg: &WalkCfg, rng: &mut Rng, mon: &mut dyn NodeMo
         let np = p.make(m);
         if cfg.stop_on_divergence && !cfg.follow_library && !same_core(&read_board(&nb), &np) {
             rep.count("diverged_stop");
+            let n = Node { b: &nb, p: &np, legal: &[], ply: ply + 1, prev: Some((&b, &p, m)), after_null: false, tag: start.tag, incremental: true, diverged: true };
+            mon.node(&n, rep, rng);
             break;
         }
         prev = Some((b, p, m));
@@ -348,7 +354,7 @@ pub fn tree_opt(start: &Start, depth: usize, follow_library: bool, rng: &mut Rng
     fn rec(b: &Board, p: &RPos, prev: Option<(&Board, &RPos, RMove)>, d: usize, ply: usize, tag: &'static str, fl: bool, rng: &mut Rng, mon: &mut dyn NodeMon, rep: &mut Report) -> usize {
         let legal = p.legal_moves();
         node_features(p, &legal, rep);
-        let n = Node { b, p, legal: &legal, ply, prev, after_null: false, tag, incremental: ply > 0 };
+        let n = Node { b, p, legal: &legal, ply, prev, after_null: false, tag, incremental: ply > 0, diverged: false };
         mon.node(&n, rep, rng);
         let mut cnt = 1;
         if d == 0 {
@@ -373,6 +379,8 @@ pub fn tree_opt(start: &Start, depth: usize, follow_library: bool, rng: &mut Rng
             let np = p.make(*m);
             if !fl && !same_core(&read_board(&nb), &np) {
                 rep.count("diverged_stop");
+                let n = Node { b: &nb, p: &np, legal: &[], ply: ply + 1, prev: Some((b, p, *m)), after_null: false, tag, incremental: true, diverged: true };
+                mon.node(&n, rep, rng);
                 continue;
             }
             cnt += rec(&nb, &np, Some((b, p, *m)), d - 1, ply + 1, tag, fl, rng, mon, rep);
